@@ -124,4 +124,45 @@ PROPS = {
             "Go regexp leftmost-first semantics for the two token patterns (hand-written matchers)",
         ],
     },
+    "C02": {
+        "level": "proof",
+        "extract": ["Value", "Reader", "SigGrammar"],
+        "extra_modules": ["QiVerif.Lemmas.Codec", "QiVerif.Lemmas.Value"],
+        "rule": "45% random dynamic-value trees (every constructor, depth<=3, opaque values of random composite signatures "
+                "with typed data incl. nested dynamic values) encoded by the harness' own encoder, followed by random "
+                "trailing bytes: decoded rendering, bytes left and re-encoding must equal the original; 30% typed data of "
+                "random signatures through signature.MakeReader (+ the harness encoder checked against the Lean statement "
+                "of the documented layout); 25% mutated encodings (bit flip, truncation, insertion) for the correspondence",
+        "assumptions": [
+            "a dynamic value whose own signature is 'm' (a value directly wrapping a value) is normalised by NewValue to the inner value; it is outside the statement (no constructor produces it) and not generated",
+            "object references ('o') and 'X' inside opaque signatures are not generated (no typed values are modelled for them)",
+            "theorems are parametric in the stack depth (fuel); the driver runs the model with 8*len+64",
+        ],
+    },
+    "C03": {
+        "level": "proof",
+        "extract": ["Encoding", "Reader", "Value"],
+        "extra_modules": ["QiVerif.Lemmas.Codec", "QiVerif.Lemmas.Value", "QiVerif.Lemmas.Decode"],
+        "rule": "random signatures (depth<=4, every scalar incl. c C w W, strings, void, dynamic values, lists, maps with "
+                "scalar/string keys, tuples, structs) and random values of the generated Go type (reflect.StructOf etc., "
+                "m -> value.Value); per case three P-lines: reflection Encode vs documented layout (map entries "
+                "canonically sorted), signature reader on those bytes + trailing bytes, reflection Decode back to the value",
+        "assumptions": [
+            "Go values are built by the harness with the generator's type mapping (m -> value.Value); Type.Type() (m -> *interface{}) is not used",
+            "lists and maps up to the reflection decoder's limit of 4096 entries",
+            "map iteration order: encodings are compared after sorting entries by encoded key",
+        ],
+    },
+    "C08": {
+        "level": "proof",
+        "extract": ["Reader", "Encoding", "Value", "Message"],
+        "extra_modules": ["QiVerif.Lemmas.Stable"],
+        "rule": "valid encodings (typed data of random signatures, dynamic values, MetaObject, ObjectReference, "
+                "ServiceInfo, capability maps, messages) produced by the harness' own encoder, cut at every position "
+                "(encodings up to 160 bytes; 60 sampled positions beyond) and fed to the signature-driven reader, the "
+                "reflection decoder, NewValue, the generated readers, ReadCapabilityMap and Message.Read; each cut is a case",
+        "assumptions": [
+            "stack-depth parametric theorems: a strict prefix yields an error or runs out of depth, never a value",
+        ],
+    },
 }
